@@ -349,11 +349,55 @@ static std::string step(const Op& o0, Model& M, std::string& viol, bool& fatal, 
 
 struct StateInfo { std::vector<int> hist; std::string hash; };
 
+// ---- all operation sequences up to a depth (no state merging): fork-tree DFS.  The process that calls seq_dfs holds the library state
+// reached by `hist`; every operation is tried in a forked child, which recurses.  Hidden library state cannot hide behind an equal
+// observation here, because nothing is merged: every history of the alphabet up to the depth is executed and compared with the model.
+static long seq_dfs(const Space& SP, const Model& M, std::vector<int>& hist, int depth, FILE* fo, double t_end, bool& timed_out) {
+  long nodes = 0;
+  for (size_t k = 0; k < SP.ops.size(); k++) {
+    if (now() > t_end) { timed_out = true; break; }
+    // (1) checker: a forked copy executes the operation with the full comparison (return value, fatal-error protocol, complete
+    // observation against the model) and is discarded -- its probing calls leave no trace in the process that carries the history on
+    fflush(fo); pid_t chk = fork();
+    if (chk == 0) {
+      alarm(g_op_timeout * 4); g_cap = g_out + ".cap." + std::to_string(getpid());
+      Model M2 = M; std::string viol, evalrec; bool fatal = false; hist.push_back(k);
+      step(SP.ops[k], M2, viol, fatal, evalrec);
+      if (!viol.empty()) { std::string h; for (int q : hist) h += std::to_string(q) + ","; fprintf(fo, "V\t-2\t%zu\t[history %s] %s\n", k, h.c_str(), esc(viol).c_str()); fflush(fo); }
+      unlink(g_cap.c_str()); _exit(0);
+    }
+    int st; waitpid(chk, &st, 0); nodes++;
+    Model M2 = M; std::string note; Op o = resolve(SP.ops[k], M); Outcome exp = model_op(o, M2, note);
+    std::string capf = g_out + ".cap." + std::to_string(chk);
+    if (!WIFEXITED(st) || WEXITSTATUS(st) != 0) {  // died inside the operation: fine iff the model expects a fatal error (exit status 1 + message)
+      std::string out = read_file(capf); unlink(capf.c_str());
+      bool exit1 = WIFEXITED(st) && WEXITSTATUS(st) == 1;
+      if (!(exp.fatal && exit1 && out.find("MASA FATAL ERROR") != std::string::npos)) { std::string h; for (int q : hist) h += std::to_string(q) + ","; fprintf(fo, "V\t-2\t%zu\t[history %s%zu,] op %s: process ended (wait status %d) %s; stdout=%s\n", k, h.c_str(), k, esc(SP.ops[k].str()).c_str(), st, exp.fatal ? "without the fatal-error protocol" : "where the model expects success", esc(out.substr(0, 200)).c_str()); }
+      continue;
+    }
+    if (exp.fatal || depth <= 1) continue;  // (an unexpected survival of a fatal operation was reported by the checker)
+    // (2) carrier: a second forked copy executes the operation only (no observation) and explores everything below it
+    int pfd[2]; if (pipe(pfd)) _exit(4);
+    fflush(fo); pid_t c = fork();
+    if (c == 0) {
+      close(pfd[0]); g_cap = g_out + ".cap." + std::to_string(getpid());
+      Model Mc = M; pure_apply(SP.ops[k], Mc); hist.push_back(k);
+      bool to = false; long sub = seq_dfs(SP, Mc, hist, depth - 1, fo, t_end, to); if (to) sub = -sub - 1;
+      fflush(fo); ssize_t w = write(pfd[1], &sub, sizeof sub); (void)w; unlink(g_cap.c_str()); _exit(0);
+    }
+    close(pfd[1]); long sub = 0; ssize_t r = read(pfd[0], &sub, sizeof sub); close(pfd[0]); waitpid(c, &st, 0);
+    if (r != (ssize_t)sizeof sub) { std::string h; for (int q : hist) h += std::to_string(q) + ","; fprintf(fo, "V\t-2\t%zu\t[history %s%zu,] the process carrying this history ended abnormally (wait status %d)\n", k, h.c_str(), k, st); continue; }
+    if (sub < 0) { timed_out = true; sub = -sub - 1; }
+    nodes += sub;
+  }
+  return nodes;
+}
+
 int main(int argc, char** argv) {
-  std::string space_id, replay; int jobs = 16; double deadline = 1e9;
+  std::string space_id, replay; int jobs = 16; double deadline = 1e9; int seqdepth = 0;
   for (int i = 1; i < argc; i++) { std::string a = argv[i]; auto nx = [&] { return std::string(argv[++i]); };
     if (a == "--space") space_id = nx(); else if (a == "--out") g_out = nx(); else if (a == "--jobs") jobs = atoi(nx().c_str()); else if (a == "--solution") g_solution = nx();
-    else if (a == "--tier") g_tier = nx() == "thorough"; else if (a == "--evals") { std::istringstream es(nx()); std::string t; while (std::getline(es, t, ',')) if (!t.empty()) g_evals.push_back(t); } else if (a == "--deadline") deadline = atof(nx().c_str()); else if (a == "--replay") replay = nx(); }
+    else if (a == "--tier") g_tier = nx() == "thorough"; else if (a == "--evals") { std::istringstream es(nx()); std::string t; while (std::getline(es, t, ',')) if (!t.empty()) g_evals.push_back(t); } else if (a == "--deadline") deadline = atof(nx().c_str()); else if (a == "--replay") replay = nx(); else if (a == "--seqdepth") seqdepth = atoi(nx().c_str()); }
   g_cap = g_out + ".cap." + std::to_string(getpid());
   Space SP = make_space(space_id); g_key_last = SP.key_last && !getenv("E2_PLAIN_STATE_KEY");
   load_catalogue();
@@ -368,6 +412,37 @@ int main(int argc, char** argv) {
   g_log = fopen(g_out.c_str(), "w"); if (!g_log) { perror("out"); return 2; }
   for (size_t k = 0; k < SP.ops.size(); k++) fprintf(g_log, "O\t%zu\t%s\n", k, esc(SP.ops[k].str()).c_str());
   for (auto& o : SP.prefix) fprintf(g_log, "P\t%s\n", esc(o.str()).c_str());
+  if (seqdepth > 0) {
+    // tasks = all prefixes of length min(2, seqdepth); each task replays its prefix (compared step by step) and explores everything below it
+    int plen = std::min(2, seqdepth); std::vector<std::vector<int>> tasks; { std::vector<int> cur; std::function<void(int)> gen = [&](int d) { if (d == 0) { tasks.push_back(cur); return; } for (size_t k = 0; k < SP.ops.size(); k++) { cur.push_back(k); gen(d - 1); cur.pop_back(); } }; gen(plen); tasks.push_back({}); }  // the last, empty task covers every sequence of length <= plen with all comparisons
+    long nodes = 0; bool timed_out = false; size_t next = 0; int running = 0; std::map<pid_t, size_t> who;
+    auto reap = [&](bool block) { int st; pid_t p = waitpid(-1, &st, block ? 0 : WNOHANG); if (p <= 0) return false; running--; size_t ti = who[p]; std::string wf = g_out + ".t" + std::to_string(ti); FILE* fi = fopen(wf.c_str(), "r");
+      if (fi) { char* line = 0; size_t cap = 0; ssize_t n; while ((n = getline(&line, &cap, fi)) > 0) { std::string l(line, n); if (l[0] == 'C') { long c = 0; int to = 0; sscanf(l.c_str(), "C\t%ld\t%d", &c, &to); nodes += c; if (to) timed_out = true; } else fputs(l.c_str(), g_log); } free(line); fclose(fi); unlink(wf.c_str()); }
+      if (!WIFEXITED(st) || WEXITSTATUS(st) != 0) fprintf(g_log, "V\t-2\t-1\tsequence worker for task %zu ended abnormally (wait status %d)\n", ti, st);
+      return true; };
+    while (next < tasks.size() || running > 0) {
+      while (next < tasks.size() && running < jobs) {
+        fflush(g_log); pid_t pid = fork();
+        if (pid == 0) {
+          std::string wf = g_out + ".t" + std::to_string(next); FILE* fo = fopen(wf.c_str(), "w"); g_cap = g_out + ".cap." + std::to_string(getpid());
+          Model M; std::vector<int> hist; long cnt = 0; bool to = false, dead = false;
+          for (auto& o : SP.prefix) pure_apply(o, M);
+          // the prefix itself: its nodes are counted by the task whose remaining prefix ops are all index 0 (so every node is counted once)
+          for (size_t i = 0; i < tasks[next].size() && !dead; i++) {
+            int k = tasks[next][i]; Model M2 = M; std::string note; Op o = resolve(SP.ops[k], M); Outcome exp = model_op(o, M2, note);
+            if (exp.fatal) { dead = true; break; }  // a prefix through an expected fatal error has no continuation
+            pure_apply(SP.ops[k], M); hist.push_back(k);  // the comparisons along the prefix are made by the depth-1/2 part of the tree below
+          }
+          if (tasks[next].empty()) cnt = seq_dfs(SP, M, hist, plen, fo, t_end, to); else if (!dead && seqdepth > plen) cnt = seq_dfs(SP, M, hist, seqdepth - plen, fo, t_end, to);
+          fprintf(fo, "C\t%ld\t%d\n", cnt + 1, (int)to); fclose(fo); unlink(g_cap.c_str()); _exit(0);
+        }
+        who[pid] = next; next++; running++;
+      }
+      reap(true);
+    }
+    fprintf(g_log, "Z\t%ld\t%ld\t%d\t%d\t%d\t%d\n", nodes, nodes, seqdepth, (int)!timed_out, (int)timed_out, seqdepth);
+    fclose(g_log); return 0;
+  }
   std::vector<StateInfo> states; std::map<std::string, long> seen;
   // initial state: the prefix applied in a child to obtain its hash
   {
@@ -497,6 +572,11 @@ static Space make_space(const std::string& id) {
       S.ops.push_back(opSet(r, "u_0", 7.5L)); S.ops.push_back(mk(GETNAME, r));
       if (r == 0) { S.ops.push_back(opEval(r, "source_rho_u", "S", 0)); S.ops.push_back(opInit(r, "heateq_2d_steady_const", "no_such_solution")); S.ops.push_back(opInit(r, "euler_1d", "euler_1dd")); }
     }
+  } else if (id == "c12s") {
+    // small registry alphabet for the all-sequences exploration (no state merging)
+    S.solutions = {"euler_1d", "heateq_2d_steady_const"};
+    S.ops = {opInit(0, "a", "euler_1d"), opInit(0, "a", "heateq_2d_steady_const"), opInit(0, "b", "euler_1d"), opInit(0, "b", "heateq_2d_steady_const"), opSel(0, "a"), opSel(0, "b"), opSet(0, "u_0", 7.5L), opEval(0, "source_rho_u", "S", 0), mk(PURGE, 0), opInit(1, "a", "euler_1d"), mk(GETNAME, 0)};
+    if (g_tier) { S.ops.push_back(opSel(1, "a")); S.ops.push_back(mk(INITPARAM, 0)); }
   } else if (id == "c12r") {
     // re-initialisation of a handle whose instance owns modified vectors: two handles holding the radiation solution (heap-allocated
     // vectors per instance), every vector may be replaced, then the same handle is initialised again (same and other solution)
